@@ -381,7 +381,8 @@ void run_program(const ProgId &id, const std::string &only_dom) {
               }
             }
             // (b) forward+backward analyzer with every fwd_bwd parameter setting
-            if (dc.e->caps & CAP_BACKWARD) {
+            // quick tier: the forward+backward analyzer runs with the default fixpoint parameters only
+            if ((dc.e->caps & CAP_BACKWARD) && (th || &fp == &fps[0])) {
               for (int eb = 0; eb < 2; eb++)
                 for (unsigned mr : {0u, 1u, 5u})
                   for (int ur = 0; ur < 2; ur++) {
@@ -415,7 +416,9 @@ void run_program(const ProgId &id, const std::string &only_dom) {
                         } else if (k == crab::checker::check_kind::CRAB_UNREACH) {
                           n_unreach++;
                           if (R.reached.count(aid))
-                            report(dc.e->name, std::string("fwdbwd-checker:unreachable-but-reached") + (eb ? ":backward" : ":forward-only"), cspec,
+                            report(dc.e->name, std::string("fwdbwd-checker:unreachable-but-") + (R.violated.count(aid) ? "violated" : "reached-safe") +
+                                       (eb ? ":backward" : ":forward-only") + (ur ? ":use-refined" : "") +
+                                       (eb && R.violated.count(aid) && assert_block_cannot_reach_exit(gp) ? ":assert-in-block-not-reaching-exit" : ""), cspec,
                                    ctx + fbs + " => assertion #" + std::to_string(aid) + " reported UNREACHABLE but some execution reaches it");
                         } else
                           n_warn++;
@@ -683,6 +686,7 @@ int main(int argc, char **argv) {
              "term_sdbm", "term_dis", "uf", "num_product", "value_partitioning", "lookahead_soct", "packing_sdbm", "bool_int", "as_int", "aa_int", "rgn_int"};
   else
     names = {"intervals", "ric", "split_dbm", "split_oct", "dis_intervals", "term_int", "sign_constants", "constants"};
+  if (PROP == "C02" && !th && !WITH_BOOL) names = {"intervals", "split_dbm", "split_oct", "dis_intervals", "ric"};
   if (PROP == "C11") names = {"intervals", "sparse_dbm", "split_dbm", "split_oct", "bool_int", "aa_int"};
   for (auto &n : names) {
     if (!only.empty() && ("," + only + ",").find("," + n + ",") == std::string::npos) continue;
